@@ -778,7 +778,8 @@ class Screen(BaseScreen, RealTerminal):
                 new_row.append((y_attr, y_cs, last_text[:nlast_offs]))
 
         new_row.append((z_attr, z_cs, z_text))
-        return new_row, z_col - y_col, (y_attr, y_cs, y_text)
+        # Z is drawn where Y belongs: step back over Z (its own width, not Y's) before inserting Y
+        return new_row, str_util.calc_width(z_text, 0, len(z_text)), (y_attr, y_cs, y_text)
 
     def clear(self) -> None:
         """
